@@ -53,13 +53,15 @@ class C15(Property):
             to = rng.choice([10, 20, 60, 130])
             s = nu.Scenario()
             tap = rng.random() < 0.5
+            # the peer's OWN timeout (which it advertises) is often a different one: what counts is node 1's setting
+            to2 = rng.choice([to, to, 3 * to, 600, max(2, to // 3)])
             if tap:
                 # learning switches without claims: the silent peer's routes are learned addresses only
                 s.node(1, mode="tap-switch", pt=to)
-                s.node(2, mode="tap-switch", pt=to)
+                s.node(2, mode="tap-switch", pt=to2)
             else:
                 s.node(1, mode="tun-router", pt=to, claims=["0a000100/24"])
-                s.node(2, mode="tun-router", pt=to, claims=["0a000200/24"])
+                s.node(2, mode="tun-router", pt=to2, claims=["0a000200/24"])
             s.add("C.2.1", "A")
             s.tick(rng.randrange(1, to + 5))
             if tap:
@@ -67,6 +69,7 @@ class C15(Property):
                     s.add("P.2.%s" % nu.eth_frame(nu.mac(1) if k % 2 else b"\xff" * 6, nu.mac(20 + k)), "A", "O.1")
             else:
                 s.add("P.1.%s" % nu.ipv4_packet(nu.node_ip(1), nu.node_ip(2, 7)), "A", "O.2")   # cached routing decision
+            s.add("X.9999")                           # marker (a no-op): the silence starts here
             for _ in range(to + 4):
                 s.t += 1
                 s.add("T.%d" % s.t, "H.1", "S.1")      # only node 1 lives; nothing is delivered
@@ -105,7 +108,7 @@ class C15(Property):
             return "ival:" + (t[0] if t[0] != "ok" else ("d1" if int(t[1]) <= 1 else "dN"))
         if " R.1.9 " in line:
             return "backoff"
-        return "mesh" if line.count(" N.") > 2 or " A T." in line else "silence"
+        return "silence" if " X.9999 " in line else "mesh"
 
     def oracle(self, line, impl_out):
         if impl_out.startswith("panic") or " panic" in impl_out:
@@ -146,8 +149,8 @@ class C15(Property):
             if last is None or now - last > 3600 + 1800 + 121:
                 return "configured peer no longer re-dialled at the end of the run"
             return None
-        healthy = " A T." in line or line.rstrip().endswith(" A")
-        if healthy and n >= 2 and " H.2 " in line.split(" A ", 3)[-1]:
+        # the family is told by an explicit marker, not by the shape of the line: silence scenarios carry the no-op X.9999
+        if " X.9999 " not in line and n >= 2:
             # heterogeneous mesh: after the mesh is formed nobody drops anybody
             formed = False
             now = 1
@@ -163,27 +166,31 @@ class C15(Property):
                     elif formed:
                         return "at t=%d node %d has dropped healthy peer(s) %s" % (now, me, sorted(set(range(1, n + 1)) - {me} - have))
             return None
-        # silence
+        # silence: the deadline is derived here, from node 1's OWN configured timeout and the time the silence began - not read
+        # from the node (the deadline it keeps is what is under test)
         to = int(nodes[0].split(".")[3])
-        refreshed = None
         now = 1
         removed_at = None
+        silent_since = None
+        last_deadline = None
         for o, r in zip(ops, outs):
             if o.startswith("T."):
                 now = int(o[2:])
+            if o == "X.9999":
+                silent_since = now
             if o == "S.1":
                 d = nu.parse_dump(r)
                 p2 = [p for p in d["peers_l"] if p[0] == "2"]
                 if p2:
-                    deadline = int(p2[0][3])
-                    if now > deadline + 1:
-                        return "peer silent since its timeout %d still present at t=%d" % (deadline, now)
-                    last_deadline = deadline
+                    if silent_since is not None and now > silent_since + to + 1:
+                        return ("peer silent since t=%d is still present at t=%d; node 1's peer timeout is %d s (the peer advertises %s)"
+                                % (silent_since, now, to, nodes[1].split(".")[3]))
+                    last_deadline = int(p2[0][3])
                 else:
                     if removed_at is None:
                         removed_at = now
-                        if now <= last_deadline:
-                            return "peer removed at t=%d before its timeout %d" % (now, last_deadline)
+                        if silent_since is not None and now <= silent_since:
+                            return "peer removed at t=%d although it was heard from until t=%d" % (now, silent_since)
                         if any(c.startswith("2:") for c in d["claims_l"]) or any(">2@" in c for c in d["cache_l"]):
                             return "peer removed but its routes are still in the table: %s %s" % (d["claims"], d["cache"])
                         if not any(p[0] == "2" for p in d["pend_l"]):
